@@ -46,26 +46,39 @@ class RecordingCache:
         self.hits = self.misses = 0
 
     def __call__(self, fn):
-        def cached(query, schema):
-            k = (type(query).__name__, query)
+        def cached(*args, **kwargs):
+            # nothing is assumed about the decorated function but what functools.lru_cache assumes: hashable arguments
+            from vt.props.c16 import cache_key
+            k = cache_key(args, kwargs)
             if k in self.store:
                 self.hits += 1
             else:
                 self.misses += 1
-                self.store[k] = fn(query, schema)
+                self.store[k] = fn(*args, **kwargs)
             return self.store[k]
         return cached
 
     def fingerprint(self):
-        out = {}
-        for k, (doc, errs) in self.store.items():
-            out[k] = (repr(doc), None if errs is None else [repr(getattr(e, "message", e)) + repr(getattr(e, "path", None))
-                                                               + repr(getattr(e, "locations", None)) for e in errs],
-                      id(doc), None if errs is None else len(errs))
-        return out
+        """Observable state of everything the cache holds (whatever its shape): repr + identity of each object, and for
+        error objects their message / path / locations / extensions."""
+        def fp(x):
+            if isinstance(x, (tuple, list)):
+                return (type(x).__name__, id(x) if isinstance(x, list) else None, tuple(fp(i) for i in x))
+            if isinstance(x, BaseException):
+                return (repr(getattr(x, "message", x)), repr(getattr(x, "path", None)), repr(getattr(x, "locations", None)),
+                        repr(getattr(x, "extensions", None)), id(x))
+            return (repr(x), id(x))
+        return {k: fp(v) for k, v in self.store.items()}
 
 
 def schema_fingerprint(schema):
+    try:
+        return _schema_fingerprint(schema)
+    except AttributeError:
+        return None     # internal layout changed: this auxiliary monitor has nothing to compare
+
+
+def _schema_fingerprint(schema):
     parts = [repr(getattr(schema, "is_introspectable", None)), schema.query_operation_name,
              repr(schema.mutation_operation_name), repr(schema.subscription_operation_name)]
     for name in sorted(schema.type_definitions):
@@ -101,6 +114,7 @@ class Item:
     def coro(self, engine, s, sched, shared):
         w = world_mod.World(s, self.wseed, self.faults, sched)
         w.shared_exc = shared if shared is not None else world_mod.make_shared_exception()
+        self.last_world = w
         w.mutate_args = getattr(self, "mutate_args", False)
         root = w.root_object(self.root_t) if (self.use_root and self.root_t) else None
         return engine.execute(self.text, operation_name=self.op_name, context={"world": w, "tag": self.wseed},
@@ -138,12 +152,21 @@ def wrong_type_field_variant(rng, s, doc):
 def gen_batch(rng, s):
     items = []
     n = rng.randint(2, 5)
-    base = X.gen_request(rng, s, docgen.DocOpts(max_fields=rng.choice([3, 5, 8]), max_depth=3, n_ops=rng.choice([(1, 1), (2, 3)]),
-                                                op_kinds=("query", "mutation")))
+    base = X.gen_request(rng, s, docgen.DocOpts(max_fields=rng.choice([3, 5, 8, 12]), max_depth=rng.choice([3, 4]),
+                                                n_ops=rng.choice([(1, 1), (2, 3)]), op_kinds=("query", "mutation"),
+                                                p_spread=rng.choice([0.18, 0.4]), p_skipinclude=rng.choice([0.15, 0.4]),
+                                                p_var=rng.choice([0.4, 0.8])))
     for i in range(n):
         r = rng.random()
-        if r < 0.45:
+        if i == 0:
+            req = base
+        elif r < 0.45:
             req = X.gen_request(rng, s, doc=base.doc)          # same document, other op/variables/world
+            if rng.random() < 0.4:
+                # the twin of the base request: same operation, same world, only the Boolean variables flipped (what a
+                # memo of collected fields keyed by the document would get wrong)
+                req = X.Request(base.doc, base.text, base.op, {k: (not v if isinstance(v, bool) else v) for k, v in (base.variables or {}).items()},
+                                base.wseed if rng.random() < 0.5 else req.wseed, use_root=base.use_root, pass_opname=base.pass_opname)
         elif r < 0.8:
             req = X.gen_request(rng, s, docgen.DocOpts(max_fields=rng.choice([3, 5]), max_depth=3, op_kinds=("query", "mutation")))
             if len(req.doc.ops) == 1 and base.op.name and rng.random() < 0.5 and req.op.kind == base.op.kind:
@@ -152,7 +175,17 @@ def gen_batch(rng, s):
                 docgen.print_doc(req.doc, rng, docgen.random_style(rng))
                 req.text, req.pass_opname = req.doc.text, rng.random() < 0.7
         elif r < 0.9:
-            items.append(Item(broken_variants(rng, base.text), None, {}, rng.randrange(10 ** 9), {}, False, None, "broken"))
+            inv = None
+            if rng.random() < 0.6:
+                # a document one specific validation rule refuses, built from the base document (same operation and
+                # fragment names): whatever a rule or the cache remembers of it must not reach the valid requests
+                from vt.props import c07
+                inv = c07.invalid_variant(rng, s, base.doc)
+                docgen.print_doc(base.doc, rng, docgen.random_style(rng)) if False else None
+            if inv:
+                items.append(Item(inv[1], base.op_name, base.variables, rng.randrange(10 ** 9), {}, False, None, "invalid:" + inv[0]))
+            else:
+                items.append(Item(broken_variants(rng, base.text), None, {}, rng.randrange(10 ** 9), {}, False, None, "broken"))
             continue
         else:
             t = wrong_type_field_variant(rng, s, base.doc)
@@ -181,6 +214,7 @@ def gen_batch(rng, s):
             kind = "bad-variables"
         items.append(Item(req.text, op_name, variables, req.wseed, faults, req.use_root, s.roots()[req.op.kind], kind))
         items[-1].insts = sorted(w0.insts)
+        items[-1].req = req if kind == "exec" else None
     if rng.random() < 0.25:
         # hostile-but-legal resolvers that modify the argument containers they receive: nothing may be shared between
         # calls or requests.  Only for requests whose arguments are constants (a variable's coerced value is legitimately
@@ -242,7 +276,7 @@ async def run_case(ctx, rng, index):
             except Exception as e:  # noqa
                 ctx.violation("execute-raised", repr(e), case)
                 continue
-            fp_cache, fp_schema = cache.fingerprint(), schema_fingerprint(b.engine._schema)
+            fp_cache, fp_schema = cache.fingerprint(), schema_fingerprint(boot.schema_of(b.engine, b.name))
 
             async def run_once(choose):
                 def make(sched):
@@ -263,7 +297,7 @@ async def run_case(ctx, rng, index):
                     continue
                 for i, (r, so_) in enumerate(zip(results, solo)):
                     if isinstance(r, BaseException):
-                        ctx.violation("execute-raised", "request %d: %r" % (i, r), c2)
+                        ctx.violation("execute-raised", "request %d: %r" % (i, r), c2, exc=r)
                     elif norm(r) != so_:
                         shared_items = [it for it in items if any(f[0] == "raise_shared" for f in it.faults.values())]
                         mech = None
@@ -313,7 +347,7 @@ async def run_case(ctx, rng, index):
             for k, v in fp_cache.items():
                 if fp2.get(k) != v:
                     ctx.violation("cached-document-mutated", "cache entry %r changed while requests ran" % (k[1][:80],), case)
-            if schema_fingerprint(b.engine._schema) != fp_schema:
+            if schema_fingerprint(boot.schema_of(b.engine, b.name)) != fp_schema:
                 ctx.violation("schema-state-mutated", "schema fingerprint changed while requests ran", case)
             st.inc("batches")
             st.inc("requests", len(items))
